@@ -71,6 +71,7 @@ type Event struct {
 	A    string
 	B    string
 	N    int
+	Task string // label of the task that recorded the observation
 }
 
 // Ctx is the per-run context handed to a scenario.
@@ -97,7 +98,7 @@ type Ctx struct {
 func (x *Ctx) Ev(kind, a, b string, n int) int {
 	x.mu.Lock()
 	x.seq++
-	e := Event{Seq: x.seq, T: x.S.Now(), Kind: kind, A: a, B: b, N: n}
+	e := Event{Seq: x.seq, T: x.S.Now(), Kind: kind, A: a, B: b, N: n, Task: simrt.CurrentLabel()}
 	x.events = append(x.events, e)
 	x.mu.Unlock()
 	x.S.Logf("obs %s %s %s %d", kind, a, b, n)
@@ -146,16 +147,16 @@ func (x *Ctx) SigAdd(parts ...string) {
 	x.mu.Unlock()
 }
 
-func (x *Ctx) NonTrivial()       { x.mu.Lock(); x.nonTrivial = true; x.mu.Unlock() }
-func (x *Ctx) SetSample(v any)   { x.mu.Lock(); x.sample = v; x.mu.Unlock() }
-func (x *Ctx) OnFinal(f func())  { x.finals = append(x.finals, f) }
+func (x *Ctx) NonTrivial()                           { x.mu.Lock(); x.nonTrivial = true; x.mu.Unlock() }
+func (x *Ctx) SetSample(v any)                       { x.mu.Lock(); x.sample = v; x.mu.Unlock() }
+func (x *Ctx) OnFinal(f func())                      { x.finals = append(x.finals, f) }
 func (x *Ctx) Go(label string, f func()) *simrt.Task { return x.S.GoTask(label, f) }
 
 // Draw helpers (workload generation from the tape)
-func (x *Ctx) Choose(kind string, n int) int               { return x.S.Choose(kind, n) }
-func (x *Ctx) Chance(kind string, p float64) bool          { return x.S.Chance(kind, p) }
-func (x *Ctx) Biased(kind string, n int, p0 float64) int   { return x.S.ChooseBiased(kind, n, p0) }
-func Pick[T any](x *Ctx, kind string, opts []T) T          { return opts[x.S.Choose(kind, len(opts))] }
+func (x *Ctx) Choose(kind string, n int) int             { return x.S.Choose(kind, n) }
+func (x *Ctx) Chance(kind string, p float64) bool        { return x.S.Chance(kind, p) }
+func (x *Ctx) Biased(kind string, n int, p0 float64) int { return x.S.ChooseBiased(kind, n, p0) }
+func Pick[T any](x *Ctx, kind string, opts []T) T        { return opts[x.S.Choose(kind, len(opts))] }
 func PickB[T any](x *Ctx, kind string, p0 float64, opts []T) T {
 	return opts[x.S.ChooseBiased(kind, len(opts), p0)]
 }
